@@ -114,6 +114,7 @@ int vh_hook_drain(vh_hookrec_t *out, int max);	/* returns number of records sinc
 void vh_put_hooks(FILE *f, int keyed);		/* drains and prints ,"hooks":[...] (keyed) or ,[...] */
 
 /* ---- fake clock (link vh_clock.c) ------------------------------------------ */
-extern time_t vh_now;
+extern time_t vh_now, vh_tick;
+extern unsigned long vh_clock_reads;
 
 #endif
